@@ -1,8 +1,10 @@
 import Sudachi.Model.Wire
 import Sudachi.Model.CharCat
 import Sudachi.Model.Edit
+import Sudachi.Model.EditAccess
 import Sudachi.Model.Lattice
 import Sudachi.Model.LatticeRec
+import Sudachi.Model.LatticeLex
 import Sudachi.Model.Sentence
 import Sudachi.Model.OovIO
 import Sudachi.Model.Normalize
@@ -37,8 +39,10 @@ def answer (line : String) : String :=
     | "C01" => if String.ofList op == "morph" then EditM.handleMorph rest
                else if String.ofList op == "part" then Total.handlePart rest else EditM.handle rest
     | "C17" => CharCat.handle rest
-    | "C08" => if op = "morphc".toList then EditM.handleMorphC rest else EditM.handle rest
-    | "C02" => Vit.handleRec rest
+    | "C08" => if op = "morphc".toList then EditAcc.handleMorphA rest
+               else if op = "acc".toList then EditAcc.handleAcc rest
+               else if op = "pyoff".toList then EditAcc.handlePyOff rest else EditM.handle rest
+    | "C02" => if op = "build".toList then Vit.handleLex rest else Vit.handleRec rest
     | "C16" => Sentence.handle rest
     | "C13" => Oov.handle op rest
     | "C07" => Normalize.handle op rest
